@@ -377,10 +377,12 @@ pub fn crash_suite_cmd(name: &str, depth: usize, seconds: f64) -> i32 {
     };
     s.depth = depth;
     let mut report = Report::new("debug", "quick", "model_checking");
-    let plan = crashprops::CrashPlan { crash: true, layout_tag: "C10", nest: 0, reopen_cycles: 0, sector_tear: false, layout: false, probe_auto_ts: false };
+    let nest = std::env::var("VERIF_NEST").ok().and_then(|v| v.parse().ok()).unwrap_or(0);
+    let plan = crashprops::CrashPlan { crash: true, layout_tag: "C10", nest, reopen_cycles: 0, sector_tear: false, layout: false, probe_auto_ts: false };
     crashprops::crash_check("debug", vec![s], &["C01", "C02", "C03", "C04", "C05", "C11", "C12", "C13", "C14"], plan, seconds, &mut report);
     println!("{}", serde_json::to_string(&report.coverage["suites"]).unwrap_or_default());
-    for v in report.violations.iter().take(5) {
+    let only = std::env::var("VERIF_ONLY_TAG").unwrap_or_default();
+    for v in report.violations.iter().filter(|v| only.is_empty() || v.signature.contains(&format!("|{only}:"))).take(5) {
         println!("VIOLATION {}", v.signature.chars().take(300).collect::<String>());
     }
     for m in &report.machinery {
